@@ -34,7 +34,7 @@ def gen_case(r, idx):
     loc = r.choice(LOCS)
     deps = []
     kinds = []
-    for _ in range(r.choice([0, 1, 2, 3, 4, 6, 8])):
+    for _ in range(r.choice([0, 1, 2, 3, 4, 6, 8]) if r.random() > 0.01 else r.randint(60, 300)):
         k = r.choice(["libcnb", "libcnb", "rel", "rel", "abs", "other", "other", "dup"])
         if k == "dup" and deps:
             deps.append(r.choice(deps))
@@ -182,7 +182,7 @@ def shard_run(arg):
 
 def run(tier, seed, work):
     res = vp.Result("C14", tier, seed, "exploration")
-    n = 10000 if tier == "quick" else 80000
+    n = 10000 if tier == "quick" else 300000
     for d in vp.pmap(shard_run, [(seed, s, work) for s in vp.split(range(n), vp.NCPU)]):
         res.merge(d)
     res.rule = ("evaluations = package_composite_buildpack calls. distinct_nontrivial = distinct (set of URI kinds present, climbs-above-root, "
